@@ -166,4 +166,32 @@ def run(prog):
                         if not ok:
                             res.viol("slice-by-span-bounds/%s" % f.norm, "%s:%s" % (f.file, t.get("ln")),
                                      "a string is sliced with span.start()..span.end() outside Index<Span>: nothing ties the span to this text")
+    # (e) the label handed to the diagnostic renderer is exactly the span: offset = start, length = end - start.
+    # Any other arithmetic on these byte offsets (clamping, padding, rounding) can land inside a character.
+    n_lbl = 0
+    allowed = {SPAN + "::start", SPAN + "::end"}
+    for f in prog.fns.values():
+        if not f.crate.startswith("kanata") or f.derive:
+            continue
+        for bi, t in f.calls():
+            cn = callee_name(t) or ""
+            if not (cn.endswith("SourceSpan::new") or (cn.endswith("::from") and "SourceSpan" in (f.local_ty(t["dest"]["l"]) or "") and "SourceSpan" not in (f.place_ty(t["args"][0]) or "") if t["args"] and is_place(t["args"][0]) else False)):
+                continue
+            n_lbl += 1
+            bad = []
+            for a in t["args"]:
+                _, callees, consts = backward_slice(f, a)
+                other = {c for c in callees if c not in allowed and not c.startswith(("core::convert::", "<")) and "::from" not in c and "::into" not in c}
+                nums = [c for c in consts if isinstance(c.get("c", {}).get("v"), int) and "fn" not in c["c"]]
+                if other or nums:
+                    bad.append((sorted(other), [c["c"].get("v") for c in nums]))
+            ok = not bad
+            res.inst("label-offsets/%s" % f.norm, ok=ok, where="%s:%s" % (f.file, t.get("ln")))
+            res.oblige(ok)
+            if not ok:
+                res.viol("label-offsets/%s" % f.norm, "%s:%s" % (f.file, t.get("ln")),
+                         "the diagnostic label is not exactly (span.start, span.end - span.start): its offsets also depend on %s — "
+                         "byte offsets are only char-aligned where the lexer put them" % (bad,))
+    if n_lbl == 0:
+        res.viol("label-offsets/anchor", "parser/src/cfg/error.rs", "no SourceSpan construction found")
     return res
